@@ -1,15 +1,39 @@
-// tr_fairmq: the table-like parts of the C16 model, read from the source with go/ast:
-//   executor/executorcmd/transitioner/fairmq/states.go       FairMQ state names      -> fmq_<NAME>
-//   executor/executorcmd/transitioner/fairmq/transitions.go  FairMQ transition names -> evt_<NAME>
-//   executor/executorcmd/transitioner/fairmq.go              the O2 -> FairMQ state map of
-//                                                            NewFairMQTransitioner   -> state_map
-//   executor/protos/occ.pb.go                                StateChangeTrigger enum -> trigger_<NAME>
+// tr_fairmq: the table-like parts of the C16 model.
+//
+//	executor/executorcmd/transitioner/fairmq (whole package)  FairMQ state names      -> fmq_<NAME>
+//	                                                          FairMQ transition names -> evt_<NAME>
+//	    every exported package-level string constant of the package, found by package (all non-test files of
+//	    the directory, whatever they are called) and evaluated with go/types, so that constants
+//	    defined through other constants, concatenations, typed constants, one const block or many
+//	    give the same facts.  Constants called Evt<NAME> are transition names, the others state names.
+//
+//	the O2 -> FairMQ state map                                                        -> state_map
+//	    obtained by EXECUTING the code: `h16 -statemap` (harness/cmd/h16/statemap.go) builds the
+//	    transitioner with NewTransitioner(FAIRMQ), probes the forward lookup (the source state
+//	    Commit("START", x, x) requests) and the inverse lookup (the state reported for a device
+//	    answer; FromDeviceState) over every string found by reflection in the tables the constructor
+//	    built plus the O2 / FairMQ / odd state names.  This translator REJECTS the dump unless the
+//	    inverse table is exactly the converse of the forward table (the model derives the inverse
+//	    from state_map), the forward table is one-to-one, every image is a FairMQ state constant or
+//	    at least non-empty, and the two observations of each lookup agree.  How the tables are
+//	    represented in the source (map literal, pair table + loop, switch, field / receiver /
+//	    helper names, which file) does not matter; which pairs they hold does.
+//
+//	executor/protos/occ.pb.go                                 StateChangeTrigger enum -> trigger_<NAME>
+//	    read with go/ast and cross-checked against the values the compiled code uses (same dump).
 package main
 
 import (
+	"encoding/json"
 	"fmt"
 	"go/ast"
+	"go/constant"
+	"go/parser"
 	"go/token"
+	"go/types"
+	"os"
+	"os/exec"
+	"path/filepath"
 	"sort"
 	"strings"
 
@@ -18,133 +42,194 @@ import (
 
 func init() { translators["fairmq"] = trFairMQ }
 
-// stringConsts returns the package-level string constants of a file in source order.
-func stringConsts(rel string) (names []string, vals map[string]string) {
-	_, f := parseFile(rel)
-	vals = map[string]string{}
-	for _, d := range f.Decls {
-		gd, ok := d.(*ast.GenDecl)
-		if !ok || gd.Tok != token.CONST {
+type fmqConst struct {
+	name, val string
+	file      string
+	off       int
+}
+
+// pkgStringConsts returns the package-level string constants of the package in directory rel,
+// ordered by (file name, position).
+func pkgStringConsts(rel string) []fmqConst {
+	dir := repo + "/" + rel
+	ents, err := os.ReadDir(dir)
+	if err != nil {
+		die("cannot read %s: %v", rel, err)
+	}
+	fset := token.NewFileSet()
+	var files []*ast.File
+	pkgName := ""
+	for _, e := range ents {
+		n := e.Name()
+		if e.IsDir() || !strings.HasSuffix(n, ".go") || strings.HasSuffix(n, "_test.go") {
 			continue
 		}
-		for _, s := range gd.Specs {
-			vs := s.(*ast.ValueSpec)
-			for i, n := range vs.Names {
-				if i >= len(vs.Values) {
-					die("%s: constant %s has no literal value", rel, n.Name)
-				}
-				v, ok := strLit(vs.Values[i])
-				if !ok {
-					die("%s: constant %s is not a string literal", rel, n.Name)
-				}
-				names = append(names, n.Name)
-				vals[n.Name] = v
-			}
+		f, err := parser.ParseFile(fset, filepath.Join(dir, n), nil, parser.ParseComments)
+		if err != nil {
+			die("cannot parse %s/%s: %v", rel, n, err)
 		}
+		if pkgName == "" {
+			pkgName = f.Name.Name
+		}
+		if f.Name.Name != pkgName {
+			continue
+		}
+		files = append(files, f)
 	}
-	if len(names) == 0 {
+	if len(files) == 0 {
+		die("%s: no Go files", rel)
+	}
+	// imports (there are none today) cannot be resolved offline: errors are ignored, constant
+	// expressions over the package's own constants are still evaluated
+	conf := types.Config{Error: func(error) {}, Importer: nil, FakeImportC: true}
+	pkg, _ := conf.Check(rel, fset, files, nil)
+	if pkg == nil {
+		die("%s: type-check gave no package", rel)
+	}
+	var out []fmqConst
+	sc := pkg.Scope()
+	for _, n := range sc.Names() {
+		c, ok := sc.Lookup(n).(*types.Const)
+		if !ok || !c.Exported() || c.Val() == nil || c.Val().Kind() != constant.String {
+			continue // unexported helper constants are not part of the vocabulary
+		}
+		p := fset.Position(c.Pos())
+		out = append(out, fmqConst{name: n, val: constant.StringVal(c.Val()), file: filepath.Base(p.Filename), off: p.Offset})
+	}
+	sort.Slice(out, func(i, j int) bool {
+		if out[i].file != out[j].file {
+			return out[i].file < out[j].file
+		}
+		return out[i].off < out[j].off
+	})
+	if len(out) == 0 {
 		die("%s: no string constants found", rel)
 	}
-	return
+	return out
+}
+
+type fmqDump struct {
+	Forward   [][2]string      `json:"forward"`
+	Inverse   [][2]string      `json:"inverse"`
+	Universe  []string         `json:"universe"`
+	Reflected []string         `json:"reflected"`
+	Tables    int              `json:"tables"`
+	Triggers  map[string]int64 `json:"triggers"`
+	Notes     []string         `json:"notes"`
+}
+
+// runStateMapDump executes `h16 -statemap` (the binary the driver has just built next to this one,
+// against the same repository copy).
+func runStateMapDump() fmqDump {
+	self, err := os.Executable()
+	if err != nil {
+		die("cannot locate the translate binary: %v", err)
+	}
+	bindir := filepath.Dir(self)
+	h16 := os.Getenv("VERIF_H16")
+	if h16 == "" {
+		h16 = filepath.Join(bindir, "h16")
+	}
+	if _, err := os.Stat(h16); err != nil {
+		die("state map dump: %s not built (%v)", h16, err)
+	}
+	tmp, err := os.CreateTemp(bindir, "statemap_*.json")
+	if err != nil {
+		die("state map dump: %v", err)
+	}
+	tmp.Close()
+	defer os.Remove(tmp.Name())
+	cmd := exec.Command(h16, "-statemap", tmp.Name())
+	if o, err := cmd.CombinedOutput(); err != nil {
+		os.Remove(tmp.Name())
+		die("state map dump: h16 -statemap failed: %v\n%s", err, o)
+	}
+	raw, err := os.ReadFile(tmp.Name())
+	if err != nil {
+		os.Remove(tmp.Name())
+		die("state map dump: %v", err)
+	}
+	var d fmqDump
+	if err := json.Unmarshal(raw, &d); err != nil {
+		os.Remove(tmp.Name())
+		die("state map dump: %v", err)
+	}
+	return d
 }
 
 func trFairMQ() string {
-	stNames, stVals := stringConsts("executor/executorcmd/transitioner/fairmq/states.go")
-	evNames, evVals := stringConsts("executor/executorcmd/transitioner/fairmq/transitions.go")
+	consts := pkgStringConsts("executor/executorcmd/transitioner/fairmq")
+	var stNames, evNames []string
+	stVals, evVals := map[string]string{}, map[string]string{}
+	for _, c := range consts {
+		if strings.HasPrefix(c.name, "Evt") {
+			evNames = append(evNames, c.name)
+			evVals[c.name] = c.val
+		} else {
+			stNames = append(stNames, c.name)
+			stVals[c.name] = c.val
+		}
+	}
 	for _, need := range []string{"ERROR", "IDLE", "INITIALIZING_DEVICE", "INITIALIZED", "BOUND", "DEVICE_READY", "READY", "RUNNING", "EXITING"} {
 		if _, ok := stVals[need]; !ok {
-			die("states.go: constant %s not found", need)
+			die("package fairmq: state constant %s not found", need)
 		}
 	}
 	for _, need := range []string{"EvtINIT_DEVICE", "EvtCOMPLETE_INIT", "EvtBIND", "EvtCONNECT", "EvtINIT_TASK", "EvtRUN", "EvtSTOP", "EvtRESET_TASK", "EvtRESET_DEVICE", "EvtEND"} {
 		if _, ok := evVals[need]; !ok {
-			die("transitions.go: constant %s not found", need)
+			die("package fairmq: transition constant %s not found", need)
+		}
+	}
+	// state value -> first constant that has it (the term used in state_map)
+	constOf := map[string]string{}
+	for _, n := range stNames {
+		if _, dup := constOf[stVals[n]]; !dup {
+			constOf[stVals[n]] = n
 		}
 	}
 
-	// the map literal bound to an identifier called stateMap in fairmq.go
-	_, f := parseFile("executor/executorcmd/transitioner/fairmq.go")
-	var lit *ast.CompositeLit
-	found := 0
-	take := func(lhs ast.Expr, rhs ast.Expr) {
-		id, ok := lhs.(*ast.Ident)
-		if !ok || id.Name != "stateMap" {
-			return
-		}
-		cl, ok := rhs.(*ast.CompositeLit)
-		if !ok {
-			return
-		}
-		if _, ok := cl.Type.(*ast.MapType); !ok {
-			return
-		}
-		lit = cl
-		found++
+	// the state tables as the running code applies them
+	d := runStateMapDump()
+	if len(d.Notes) > 0 {
+		die("state map (executed): %s", strings.Join(d.Notes, "; "))
 	}
-	ast.Inspect(f, func(n ast.Node) bool {
-		switch v := n.(type) {
-		case *ast.AssignStmt:
-			if len(v.Lhs) == len(v.Rhs) {
-				for i := range v.Lhs {
-					take(v.Lhs[i], v.Rhs[i])
-				}
-			}
-		case *ast.ValueSpec:
-			if len(v.Names) == len(v.Values) {
-				for i := range v.Names {
-					take(v.Names[i], v.Values[i])
-				}
-			}
-		}
-		return true
-	})
-	if found != 1 {
-		die("fairmq.go: expected exactly one map literal bound to stateMap, found %d", found)
+	if len(d.Forward) == 0 {
+		die("state map (executed): no O2 state has a FairMQ image")
 	}
 	type ent struct{ key, valTerm, valStr, comment string }
 	var ents []ent
 	seenK, seenV := map[string]bool{}, map[string]bool{}
-	for _, el := range lit.Elts {
-		kv, ok := el.(*ast.KeyValueExpr)
-		if !ok {
-			die("stateMap: unexpected element")
+	fwd := map[string]string{}
+	for _, kv := range d.Forward {
+		k, v := kv[0], kv[1]
+		if seenK[k] {
+			die("state map (executed): duplicate key %q", k)
 		}
-		k, ok := strLit(kv.Key)
-		if !ok {
-			die("stateMap: key is not a string literal")
+		if seenV[v] {
+			// the inverse lookup could not be a function of the forward table
+			die("state map (executed): two O2 states map to the same FairMQ state %q (inverse map not a function)", v)
 		}
-		var e ent
-		e.key = k
-		switch v := kv.Value.(type) {
-		case *ast.SelectorExpr:
-			pkg, ok := v.X.(*ast.Ident)
-			if !ok || pkg.Name != "fairmq" {
-				die("stateMap[%q]: value is not a fairmq.<CONST> selector", k)
-			}
-			s, ok := stVals[v.Sel.Name]
-			if !ok {
-				die("stateMap[%q]: fairmq.%s is not a constant of states.go", k, v.Sel.Name)
-			}
-			e.valTerm, e.valStr, e.comment = "fmq_"+v.Sel.Name, s, "fairmq."+v.Sel.Name
-		default:
-			s, ok := strLit(kv.Value)
-			if !ok {
-				die("stateMap[%q]: value is neither a fairmq constant nor a string literal", k)
-			}
-			e.valTerm, e.valStr, e.comment = gen.Str(s), s, fmt.Sprintf("%q", s)
+		seenK[k], seenV[v] = true, true
+		fwd[k] = v
+		e := ent{key: k, valStr: v}
+		if cn, ok := constOf[v]; ok {
+			e.valTerm, e.comment = "fmq_"+cn, "fairmq."+cn
+		} else {
+			e.valTerm, e.comment = gen.Str(v), fmt.Sprintf("%q", v)
 		}
-		if seenK[e.key] {
-			die("stateMap: duplicate key %q", e.key)
-		}
-		if seenV[e.valStr] {
-			// the inverse map would depend on Go's map iteration order
-			die("stateMap: two O2 states map to the same FairMQ state %q (inverse map not a function)", e.valStr)
-		}
-		seenK[e.key], seenV[e.valStr] = true, true
 		ents = append(ents, e)
 	}
-	if len(ents) == 0 {
-		die("stateMap: empty")
+	// the inverse table must be exactly the converse of the forward table: the model computes
+	// stateForFmqState by reverse lookup in state_map
+	if len(d.Inverse) != len(d.Forward) {
+		die("state map (executed): the FairMQ -> O2 table has %d entries, the O2 -> FairMQ table %d: not inverse of each other (forward %v, inverse %v)",
+			len(d.Inverse), len(d.Forward), d.Forward, d.Inverse)
+	}
+	for _, kv := range d.Inverse {
+		if fwd[kv[1]] != kv[0] {
+			die("state map (executed): FairMQ state %q is reported as %q, but %q is requested as %q: not inverse of each other",
+				kv[0], kv[1], kv[1], fwd[kv[1]])
+		}
 	}
 	sort.Slice(ents, func(i, j int) bool { return ents[i].key < ents[j].key })
 
@@ -156,24 +241,28 @@ func trFairMQ() string {
 		if !ok {
 			die("occ.pb.go: StateChangeTrigger_%s is not an integer literal", n)
 		}
+		if rv, ok := d.Triggers[n]; !ok || rv != v {
+			die("occ.pb.go: StateChangeTrigger_%s is %d in the source but %d in the compiled code", n, v, rv)
+		}
 		trig[n] = v
 	}
 
 	var b strings.Builder
 	b.WriteString("(* regenerated on every run by harness/cmd/translate (fairmq) from\n" +
-		"   executor/executorcmd/transitioner/fairmq/states.go, .../fairmq/transitions.go,\n" +
-		"   executor/executorcmd/transitioner/fairmq.go (stateMap of NewFairMQTransitioner) and\n" +
+		"   the string constants of package executor/executorcmd/transitioner/fairmq (go/types),\n" +
+		"   the O2 <-> FairMQ state tables as built by NewFairMQTransitioner and applied by the running\n" +
+		"   code (h16 -statemap; inverse table checked to be the converse of this one) and\n" +
 		"   executor/protos/occ.pb.go (StateChangeTrigger).  Do not edit. *)\n")
 	b.WriteString("From Verif Require Import Common.\nOpen Scope N_scope.\n")
-	b.WriteString("(* fairmq/states.go *)\n")
+	b.WriteString("(* package fairmq: state names *)\n")
 	for _, n := range stNames {
 		fmt.Fprintf(&b, "Definition fmq_%s : str := %s. (* %q *)\n", n, gen.Str(stVals[n]), stVals[n])
 	}
-	b.WriteString("(* fairmq/transitions.go *)\n")
+	b.WriteString("(* package fairmq: transition names *)\n")
 	for _, n := range evNames {
 		fmt.Fprintf(&b, "Definition evt_%s : str := %s. (* %q *)\n", strings.TrimPrefix(n, "Evt"), gen.Str(evVals[n]), evVals[n])
 	}
-	b.WriteString("(* fairmq.go: stateMap, O2 state -> FairMQ state, sorted by key *)\n")
+	b.WriteString("(* O2 state -> FairMQ state, sorted by key *)\n")
 	b.WriteString("Definition state_map : list (str * str) := [\n")
 	for i, e := range ents {
 		sep := ";"
